@@ -83,11 +83,22 @@ def run(c, pid, groups, parts, spec, spec_files, prop_files_quick, prop_files_th
                 c.count(1, (nm, tuple(map(tuple, ins))), True)
                 if nagree % 211 == 1:
                     c.sample({"operation": nm, "inputs": ins, "real_code_output": obs[:6]})
-                if t[0] == "AGREE-FAIL":
-                    c.report("agree:" + nm, "traced expression and double instantiation of %s disagree on %s" % (nm, ins),
-                             {"operation": nm, "inputs": ins, "double": obs}, True)
+                # bound of the intermediate terms (cancellations, e.g. in round trips): product over the inputs of
+                # max|component|, to the 4th power for tensors (determinants, inverses, push-forwards)
+                bound = 1.0
+                for k, v in zip(kin, ins):
+                    m = max([1.0] + [abs(x) for x in v])
+                    bound *= m ** (4 if k in "tr" else 1)
                 exp = spec.evaluate(spec.SPEC, name, N, kin, kout, ins)
-                bad = spec.compare(exp, obs)
+                bad = spec.compare(exp, obs, 1e-9, bound)
+                if t[0] == "AGREE-FAIL":
+                    # the tracer's own tolerance is scaled by the results only; a disagreement counts when the double
+                    # code is also away from the specification beyond rounding of the intermediate terms
+                    if bad is not None:
+                        c.report("agree:" + nm, "traced expression and double instantiation of %s disagree on %s" % (nm, ins),
+                                 {"operation": nm, "inputs": ins, "double": obs}, True)
+                    else:
+                        c.notes.append("agreement of %s within rounding of cancelling terms only (magnitude bound %.3g)" % (nm, bound))
                 if bad is not None and nm not in refuted:
                     refuted[nm] = (ins, exp, obs, bad)
     for nm, (ins, exp, obs, bad) in sorted(refuted.items()):
